@@ -1,6 +1,6 @@
 """Per-property registration data used by bin/mkmanifest (MANIFEST.json is generated)."""
 
-HOOK_COMMITS = ["1eccb32"]
+HOOK_COMMITS = ["1eccb32", "b6ff38a"]
 
 LEVEL_NOTE_COMMON = ("Trusted: TLC and the CommunityModules Json/Bitwise Java overrides; the Go toolchain; the harness "
                      "drivers; Go reference functions only where named, each re-validated against the TLA+ text by TLC "
@@ -20,4 +20,36 @@ CHECKS = {
         "design_ref": "DESIGN.md section 5 (C13)",
         "note": "arm assembly of xxh32 not executable on this host; totals beyond 2^32+16 by state injection through the verif hook.",
     },
+}
+
+_BLK_TECH = ("TLA+ definition of the LZ4 block format (LZ4Block.tla: total Decode) model-checked on the block-grammar "
+             "state machine; TLC-enumerated class-product and positioned cases with TLC-computed expectations replayed into "
+             "both decoder builds; seeded mutants executed and validated by TLC trace validation (LZ4Block_Trace)")
+CHECKS["C03"] = {
+    "technique": _BLK_TECH + "; memory-safety sensors (canary arenas with spare capacity, PROT_NONE guard pages) judged by the trace spec",
+    "text": "TLC enumerates blocks whose sequences sit 0..48 bytes from the end of source and destination for every literal/"
+            "match/offset class that enables a wide-copy shortcut, plus the grammar class product and seeded mutants; each runs "
+            "on the assembly and the portable decoder with buffers ending at an unmapped page and inside canary arenas; the trace "
+            "specification accepts a record only if no panic/fault occurred, canaries, source and dictionary are intact and the "
+            "count is within len(dst). Bounded enumeration is the right level: the shortcut guards depend only on small distances.",
+    "design_ref": "DESIGN.md section 5 (C03)",
+    "note": "Out-of-bounds detection relies on the sensors, not on TLC; arm/arm64 assembly not executable on this host.",
+}
+CHECKS["C04"] = {
+    "technique": _BLK_TECH,
+    "text": "LZ4Block.tla defines, for every byte string, dictionary and destination size, either the decoded bytes or one of the "
+            "four mandated error classes (or 'other', where the property is silent). TLC proves on the grammar machine that this "
+            "definition inverts serialisation, and generates the class product of C04's quantifier with expected results; the real "
+            "decoders (both builds, three destination pre-fills) must reproduce them byte for byte, and every seeded mutant's "
+            "observation is re-derived by TLC in trace validation.",
+    "design_ref": "DESIGN.md section 5 (C04)",
+    "note": "Blocks up to ~1.1 KiB at byte level; dictionaries up to 65535 bytes are pattern-defined.",
+}
+CHECKS["C12"] = {
+    "technique": _BLK_TECH + "; joint records of the default and noasm builds compared by the trace spec",
+    "text": "Every generated and mutated case is executed by two harness binaries (default = amd64 assembly, -tags noasm = portable) "
+            "and joined by case id; the trace specification requires identical error/length/bytes and, where Decode is defined, "
+            "equality with it. Covers the C03 and C04 case streams.",
+    "design_ref": "DESIGN.md section 5 (C12)",
+    "note": "Only amd64 assembly vs portable can be compared on this host.",
 }
